@@ -68,7 +68,19 @@ pub fn worker_handle(line: &str) -> String {
             let mut reporter = |k: MarkerWarningKind, _m: String| warns.push(warn_code(k));
             // the generic parser (`Requirement<Url>`: any URL the url crate reads, no variable expansion) on the same text
             let generic = std::panic::catch_unwind(|| Requirement::<url::Url>::from_str(&text));
+            // … and through its entry points that take a working directory: a plain `Url` has no use for it, so they agree with from_str
+            let generic_wd = std::panic::catch_unwind(|| {
+                let mut sink = |_k: MarkerWarningKind, _m: String| {};
+                (Requirement::<url::Url>::parse(&text, "/work/project"), Requirement::<url::Url>::parse_reporter(&text, "/elsewhere", &mut sink))
+            });
             let generic_note = |primary: &Result<Requirement<VerbatimUrl>, Pep508Error<VerbatimUrl>>| -> &'static str {
+                match (&generic, &generic_wd) {
+                    (Ok(g), Ok((a, b))) => {
+                        let same = |x: &Result<Requirement<url::Url>, Pep508Error<url::Url>>| match (g, x) { (Ok(p), Ok(q)) => p == q && p.to_string() == q.to_string(), (Err(p), Err(q)) => p.start == q.start && p.len == q.len, _ => false };
+                        if !same(a) || !same(b) { return " GENERIC-DIFFER:working_dir"; }
+                    }
+                    _ => return " GENERIC-DIFFER:panic",
+                }
                 if cfg!(feature = "ext") { return ""; }
                 let Ok(g) = &generic else { return " GENERIC-DIFFER:panic" };
                 match (primary, g) {
@@ -485,7 +497,9 @@ pub fn render(rng: &mut Rng, d: &Deriv) -> Option<String> {
 pub fn gen_deriv(rng: &mut Rng, p: &Pools) -> Deriv {
     let names = ["requests", "Foo.Bar_baz", "a", "a-b", "numpy2", "x.y-z_w", "A", "zope.interface", "d__e", "b2"];
     let extras = ["security", "tests", "A_b", "x.y", "dev", "E-e"];
-    let specs = [">=2.8.1", "==2.8.*", "~=1.0", "!=1.5", "<2", ">1.0.post1", "<= 3.0", "== 1.0", ">=1.0a1", "===1.0", "!=2.*", ">= 1"];
+    let specs = [">=2.8.1", "==2.8.*", "~=1.0", "!=1.5", "<2", ">1.0.post1", "<= 3.0", "== 1.0", ">=1.0a1", "===1.0", "!=2.*", ">= 1",
+        // every part a PEP 440 version may have, in specifiers: epoch (`!` is also an operator character), dev / post / local
+        ">=1!2.0", "==1!2.0", "~=2!1.4", "!=2!1.5", "<1!3", "==1.0+local.1", ">=1.0.dev0", "==1.0.post2", "<2.0rc1", "===1!2+x"];
     let urls = ["https://example.org/foo-1.0.whl", "file:///tmp/x.tar.gz", "git+https://github.com/a/b.git@main#egg=b", "https://x.org/a;b", "https://x.org/a#frag",
         "https://x.org/${VP_HOME_DIR}/a", "https://x.org/a%20b", "http://localhost:8080/p?q=1&r=[2]", "https://x.org/${VP_UNSET}/a", "https://user:pw@x.org/a@b",
         // the parsed URL ends in `;` / `#` although the text does not (F20)
